@@ -1800,7 +1800,7 @@ impl TypeSpace {
                     });
                     let rest = (items.len()..*max_items as usize).map(|_| Ok(rest_id.clone()));
                     let types = start.chain(rest).collect::<Result<Vec<_>>>()?;
-                    Ok((TypeEntryDetails::Tuple(types).into(), metadata))
+                    Ok((tuple_of(types, &type_name)?, metadata))
                 }
                 // Tuple with at least as many items as required.
                 Some(SingleOrVec::Vec(items)) => {
@@ -1813,7 +1813,7 @@ impl TypeSpace {
                             Ok(self.id_for_schema(item_name, item_schema)?.0)
                         })
                         .collect::<Result<_>>()?;
-                    Ok((TypeEntryDetails::Tuple(types).into(), metadata))
+                    Ok((tuple_of(types, &type_name)?, metadata))
                 }
 
                 // Array with a schema for the item.
@@ -2090,6 +2090,22 @@ impl TypeSpace {
             _ => None,
         }
     }
+}
+
+/// The type for a tuple. The standard library implements Debug, Clone and the
+/// comparison traits for tuples of up to 12 elements only; a longer one could
+/// not carry the derives of the generated types, so it is rejected.
+fn tuple_of(types: Vec<crate::TypeId>, type_name: &Name) -> Result<TypeEntry> {
+    if types.len() > 12 {
+        return Err(Error::InvalidSchema {
+            type_name: type_name.clone().into_option(),
+            reason: format!(
+                "tuples of more than 12 items ({}) are not supported",
+                types.len()
+            ),
+        });
+    }
+    Ok(TypeEntryDetails::Tuple(types).into())
 }
 
 /// The type for an array schema of fixed length. serde implements Serialize
